@@ -138,9 +138,11 @@ def gen_emb(rng, solver, size="small"):
         X = gen_rank(rng, N, D, d)
         style = "rank-d"
     else:
-        D = rng.choice([1, 2, 3, 4, 6, 10]) if size == "small" else rng.choice([12, 20, 30])
-        N = rng.choice([2, 3, 4, 8, 12, 20]) if size == "small" else rng.choice([40, 64])
+        D = rng.choice([1, 2, 3, 4, 6, 10]) if size == "small" else rng.choice([12, 16])
+        N = rng.choice([2, 3, 4, 8, 12, 20]) if size == "small" else rng.choice([32, 40])
         d = rng.randint(1, max(1, min(D, N - 1)))
+        if size != "small":
+            d = min(d, 4)           # exact rational decision procedures: keep D^2 d + N D d moderate
         style = rng.choice(["correlated", "correlated", "correlated-exact", "int", "offset", "ties", "generic"])
         if style == "correlated":
             X = gen_correlated(rng, N, D, False)
@@ -635,7 +637,7 @@ def build_cases(ctx, quick):
         hist[key] = hist.get(key, 0) + 1
     n_dense, n_rand = (24, 6) if quick else (250, 60)
     for j in range(n_dense):
-        c = gen_emb(rng, "dense", "small" if (quick or j % 5) else "large")
+        c = gen_emb(rng, "dense", "small" if (quick or j % 8) else "large")
         c["agree"] = (j % 2 == 0) and c["N"] <= 24
         cases.append(c)
         hist["api:pca-dense"] = hist.get("api:pca-dense", 0) + 1
@@ -658,7 +660,7 @@ def run(ctx):
     if ctx.is_unshown() and not ctx.has_violation():
         extra = gen_cov_cases(ctx.rng, 200, 50)
         for j in range(150):
-            extra.append(gen_emb(ctx.rng, "dense", "small" if j % 4 else "large"))
+            extra.append(gen_emb(ctx.rng, "dense", "small" if j % 8 else "large"))
         for j in range(30):
             extra.append(gen_emb(ctx.rng, "randomized"))
         verdicts += evaluate(ctx, exe, mexe, extra, st)
